@@ -56,9 +56,10 @@ def confirm(mdir, log):
                         'brood = { path = "%s", features = ["serde", "rayon"] }\n%s\n'
                         'serde_derive = "1"\nserde_assert = "0.5.0"\nserde_json = "1.0"\nrayon = "1.6.0"\n' % (wt, serde_dep))
             rc, out = sh("cargo run --offline -q", cwd=demo, env=env, timeout=1800)
-            if rc == 0 or "could not compile" not in out:
+            if rc == 0 or "could not compile" not in out or os.path.exists(os.path.join(mdir, "expect.txt")):
                 break
         res["demo_on_original"] = rc
+        res["demo_on_original_compile_error"] = ("error[E" in out) or ("could not compile" in out)
         log.append("demo on original: rc=%d %s" % (rc, out[-300:].replace("\n", " | ")))
         rc, out = sh(["git", "apply", os.path.join(mdir, "patch.diff")], cwd=wt)
         if rc:
@@ -71,13 +72,20 @@ def confirm(mdir, log):
         res["features_build"] = rc
         rc, out = sh("cargo run --offline -q", cwd=demo, env=env, timeout=1800)
         res["demo_on_mutant"] = rc
+        res["demo_on_mutant_compiles"] = "could not compile" not in out
         log.append("demo on mutant: rc=%d %s" % (rc, out[-400:].replace("\n", " | ")))
     finally:
         sh(["git", "-C", REPO, "worktree", "remove", "--force", wt])
         shutil.rmtree(wt, ignore_errors=True)
         shutil.rmtree(os.path.join(SCRATCH, "demo"), ignore_errors=True)
-    res["confirmed"] = (res.get("demo_on_original") == 0 and res.get("suite_ok") and res.get("features_build") == 0
-                        and res.get("demo_on_mutant", 0) != 0)
+    compile_fail = os.path.exists(os.path.join(mdir, "expect.txt")) and "compile-fail-on-original" in open(os.path.join(mdir, "expect.txt")).read()
+    if compile_fail:
+        # C14-style: the demonstration must NOT compile on the original and must compile on the mutant
+        res["confirmed"] = bool(res.get("demo_on_original_compile_error") and res.get("suite_ok") and res.get("features_build") == 0
+                                and res.get("demo_on_mutant_compiles"))
+    else:
+        res["confirmed"] = (res.get("demo_on_original") == 0 and res.get("suite_ok") and res.get("features_build") == 0
+                            and res.get("demo_on_mutant", 0) != 0)
     return res
 
 
